@@ -651,52 +651,132 @@ Proof.
   eapply cmp_lt; [|exact L]. rewrite elt_compare_opp, H. reflexivity.
 Qed.
 
-Lemma bsearch_list_iff c k : forall fuel l,
-  zlen l < Z.of_nat fuel -> StronglySorted (le_by c) l ->
-  (bsearch_list c fuel l k = true <-> In k l).
-Proof.
-  induction fuel as [|f IH]; intros l Hf HS.
-  { pose proof (zlen_nonneg l). lia. }
-  cbn [bsearch_list]. pose proof (zlen_nonneg l) as Hnn.
-  set (m := zlen l / 2).
-  assert (Hm : 0 <= m /\ (0 < zlen l -> m < zlen l)).
-  { subst m. split; [apply Z.div_pos; lia|]. intros H. apply Z.div_lt; lia. }
-  destruct (zskipn m l) as [|x r] eqn:Esk.
-  - assert (l = []).
-    { destruct l as [|y l']; [reflexivity|]. exfalso.
-      assert (E : zlen (zskipn m (y :: l')) = 0) by (rewrite Esk; reflexivity).
-      rewrite zlen_zskipn in E. cbn [zlen] in *. pose proof (zlen_nonneg l'). lia. }
-    subst l. split; [discriminate|intros []].
-  - assert (El : l = zfirstn m l ++ x :: r) by (rewrite <- Esk; symmetry; apply zfirstn_zskipn).
-    assert (Hlen : zlen l = zlen (zfirstn m l) + 1 + zlen r).
-    { rewrite El at 1. rewrite zlen_app. cbn [zlen]. lia. }
-    pose proof (zlen_nonneg r) as Hr. pose proof (zlen_nonneg (zfirstn m l)) as Hfn.
-    assert (Hfl : zlen (zfirstn m l) = m) by (rewrite zlen_zfirstn; lia).
-    rewrite El in HS. apply ss_app_inv in HS. destruct HS as (S1 & S2 & C).
-    apply StronglySorted_inv in S2. destruct S2 as [S2 F2]. rewrite Forall_forall in F2.
-    pose proof (in_app_iff (zfirstn m l) (x :: r) k) as Hin. rewrite <- El in Hin. cbn [In] in Hin.
-    destruct (compare_by c k x) eqn:Ec.
-    + apply cmpby_eq in Ec. subst x. split; [|reflexivity]. intros _. apply Hin. right. left. reflexivity.
-    + rewrite IH by (assumption || lia). rewrite Hin.
-      split; [auto|]. intros [H|[H|H]]; [exact H| |].
-      * exfalso. eapply cmpby_lt; [exact Ec|apply le_by_refl|congruence].
-      * exfalso. eapply cmpby_lt; [exact Ec|apply F2; exact H|reflexivity].
-    + rewrite IH by (assumption || lia). rewrite Hin.
-      split; [intros H; right; right; exact H|]. intros [H|[H|H]]; [| |exact H].
-      * exfalso. eapply cmpby_gt; [exact Ec|apply (C k x); [exact H|left; reflexivity]|reflexivity].
-      * exfalso. eapply cmpby_gt; [exact Ec|apply le_by_refl|congruence].
-Qed.
+(* ---- the two-sorted binary search: any key type, any comparator compatible with the order ---- *)
+Section TwoSorted.
+  Context {K : Type} (cmp : K -> elt -> comparison) (le : elt -> elt -> Prop).
+  (* the member order the array is sorted by is compatible with the key-vs-member comparator:
+     a key below a member is below everything above it, a key above a member is above
+     everything below it *)
+  Hypothesis compat_lt : forall k x y, cmp k x = Lt -> le x y -> cmp k y = Lt.
+  Hypothesis compat_gt : forall k x y, cmp k x = Gt -> le y x -> cmp k y = Gt.
 
+  (* whatever the array holds (sorted or not): what is returned is a member the comparator
+     calls equal to the key *)
+  Lemma bsearch_list_sound k : forall fuel l x,
+    bsearch_list cmp fuel l k = Some x -> In x l /\ cmp k x = Eq.
+  Proof.
+    induction fuel as [|f IH]; intros l x H; [discriminate|].
+    cbn [bsearch_list] in H. set (m := zlen l / 2) in *.
+    destruct (zskipn m l) as [|y r] eqn:Esk; [discriminate|].
+    assert (El : l = zfirstn m l ++ y :: r) by (rewrite <- Esk; symmetry; apply zfirstn_zskipn).
+    destruct (cmp k y) eqn:Ec.
+    - inversion H; subst y. split; [|exact Ec]. rewrite El. apply in_or_app. right. left. reflexivity.
+    - destruct (IH _ _ H) as [I E]. split; [|exact E]. rewrite El. apply in_or_app. left. exact I.
+    - destruct (IH _ _ H) as [I E]. split; [|exact E]. rewrite El. apply in_or_app. right. right. exact I.
+  Qed.
+
+  (* on an array ordered by [le]: NULL is returned only when no member compares equal *)
+  Lemma bsearch_list_complete k : forall fuel l,
+    zlen l < Z.of_nat fuel -> StronglySorted le l ->
+    bsearch_list cmp fuel l k = None -> forall y, In y l -> cmp k y <> Eq.
+  Proof.
+    induction fuel as [|f IH]; intros l Hf HS H.
+    { pose proof (zlen_nonneg l). lia. }
+    cbn [bsearch_list] in H. pose proof (zlen_nonneg l) as Hnn.
+    set (m := zlen l / 2) in *.
+    assert (Hm : 0 <= m /\ (0 < zlen l -> m < zlen l)).
+    { subst m. split; [apply Z.div_pos; lia|]. intros H0. apply Z.div_lt; lia. }
+    destruct (zskipn m l) as [|x r] eqn:Esk.
+    - assert (l = []).
+      { destruct l as [|y l']; [reflexivity|]. exfalso.
+        assert (E : zlen (zskipn m (y :: l')) = 0) by (rewrite Esk; reflexivity).
+        rewrite zlen_zskipn in E. cbn [zlen] in *. pose proof (zlen_nonneg l'). lia. }
+      subst l. intros y [].
+    - assert (El : l = zfirstn m l ++ x :: r) by (rewrite <- Esk; symmetry; apply zfirstn_zskipn).
+      assert (Hlen : zlen l = zlen (zfirstn m l) + 1 + zlen r).
+      { rewrite El at 1. rewrite zlen_app. cbn [zlen]. lia. }
+      pose proof (zlen_nonneg r) as Hr. pose proof (zlen_nonneg (zfirstn m l)) as Hfn.
+      assert (Hfl : zlen (zfirstn m l) = m) by (rewrite zlen_zfirstn; lia).
+      rewrite El in HS. apply ss_app_inv in HS. destruct HS as (S1 & S2 & C).
+      apply StronglySorted_inv in S2. destruct S2 as [S2 F2]. rewrite Forall_forall in F2.
+      pose proof (in_app_iff (zfirstn m l) (x :: r)) as Hin. rewrite <- El in Hin. cbn [In] in Hin.
+      destruct (cmp k x) eqn:Ec; [discriminate| |].
+      + intros y Hy. apply Hin in Hy. destruct Hy as [Hy|[<-|Hy]].
+        * apply (IH (zfirstn m l)); (assumption || lia).
+        * rewrite Ec. discriminate.
+        * rewrite (compat_lt k x y Ec (F2 y Hy)). discriminate.
+      + intros y Hy. apply Hin in Hy. destruct Hy as [Hy|[<-|Hy]].
+        * rewrite (compat_gt k x y Ec (C y x Hy (or_introl eq_refl))). discriminate.
+        * rewrite Ec. discriminate.
+        * apply (IH r); (assumption || lia).
+  Qed.
+
+  Theorem bsearch_km_spec a k :
+    Inv a ->
+    exists r, al_bsearch_km cmp a k = Some r /\
+              (forall x, r = Some x -> In x (al_abs a) /\ cmp k x = Eq) /\
+              (StronglySorted le (al_abs a) -> r = None -> forall y, In y (al_abs a) -> cmp k y <> Eq).
+  Proof.
+    intros HI. pose proof HI as (Hm & Hl & Hs & Hc). unfold al_bsearch_km.
+    assert (E : (alen a >? asize a) = false) by lia. rewrite E.
+    fold (al_cells a). rewrite Hc, cell_vals_map_Val.
+    eexists. split; [reflexivity|]. split.
+    - intros x Hx. eapply bsearch_list_sound. exact Hx.
+    - intros HS Hn. eapply bsearch_list_complete; [|exact HS|exact Hn]. rewrite zlen_length. lia.
+  Qed.
+End TwoSorted.
+
+(* the comparators of the model are compatible with the orders the model sorts by, for keys of
+   member shape and hence for bare-id keys *)
+Lemma cmpby_compat_lt c e x y : compare_by c e x = Lt -> le_by c x y -> compare_by c e y = Lt.
+Proof.
+  destruct c, e as [k|], x as [a|], y as [b|]; cbn; unfold elt_le, elt_leb, is_true; cbn;
+    intros H L; try discriminate; try reflexivity;
+    rewrite ?Z.compare_lt_iff, ?Z.compare_gt_iff in *; lia.
+Qed.
+Lemma cmpby_compat_gt c e x y : compare_by c e x = Gt -> le_by c y x -> compare_by c e y = Gt.
+Proof.
+  destruct c, e as [k|], x as [a|], y as [b|]; cbn; unfold elt_le, elt_leb, is_true; cbn;
+    intros H L; try discriminate; try reflexivity;
+    rewrite ?Z.compare_lt_iff, ?Z.compare_gt_iff in *; lia.
+Qed.
+Lemma cmpby_refl c e : compare_by c e e = Eq.
+Proof. destruct c, e as [k|]; cbn; try reflexivity; apply Z.compare_refl. Qed.
+
+(* homogeneous search: found iff the key is an element *)
 Theorem bsearch_spec c a k :
   Inv a ->
   exists b, al_bsearch c a k = Some b /\
             (StronglySorted (le_by c) (al_abs a) -> (b = true <-> In k (al_abs a))).
 Proof.
-  intros HI. pose proof HI as (Hm & Hl & Hs & Hc). unfold al_bsearch.
-  assert (E : (alen a >? asize a) = false) by lia. rewrite E.
-  fold (al_cells a). rewrite Hc, cell_vals_map_Val.
-  eexists. split; [reflexivity|]. intros HS. apply bsearch_list_iff; [|exact HS].
-  rewrite zlen_length. lia.
+  intros HI.
+  destruct (bsearch_km_spec (compare_by c) (le_by c) (cmpby_compat_lt c) (cmpby_compat_gt c) a k HI)
+    as (r & Hr & Hs & Hcpl).
+  unfold al_bsearch. rewrite Hr. destruct r as [x|].
+  - exists true. split; [reflexivity|]. intros _. split; [|reflexivity]. intros _.
+    destruct (Hs x eq_refl) as [I E]. apply cmpby_eq in E. subst x. exact I.
+  - exists false. split; [reflexivity|]. intros HS. split; [discriminate|]. intros I. exfalso.
+    apply (Hcpl HS eq_refl k I). apply cmpby_refl.
+Qed.
+
+(* heterogeneous search: the key is a bare id.  What is found is a member with that id; NULL is
+   returned exactly when no member has it (on an array ordered by the comparator's order) *)
+Theorem bsearch_int_key_spec c a (k : key) :
+  Inv a ->
+  exists r, al_bsearch_km (cmp_km c) a k = Some r /\
+            (forall x, r = Some x -> x = Some k /\ In (Some k) (al_abs a)) /\
+            (StronglySorted (le_by c) (al_abs a) -> (r = None <-> ~ In (Some k) (al_abs a))).
+Proof.
+  intros HI.
+  destruct (bsearch_km_spec (cmp_km c) (le_by c)
+              (fun k x y => cmpby_compat_lt c (Some k) x y) (fun k x y => cmpby_compat_gt c (Some k) x y) a k HI)
+    as (r & Hr & Hs & Hcpl).
+  exists r. split; [exact Hr|]. split.
+  - intros x Hx. destruct (Hs x Hx) as [I E]. unfold cmp_km in E. apply cmpby_eq in E. subst x. auto.
+  - intros HS. split.
+    + intros Hn I. apply (Hcpl HS Hn (Some k) I). apply cmpby_refl.
+    + intros Hni. destruct r as [x|]; [|reflexivity]. exfalso. apply Hni.
+      destruct (Hs x eq_refl) as [I E]. unfold cmp_km in E. apply cmpby_eq in E. subst x. exact I.
 Qed.
 
 (* sort, then search: found iff the key was an element before sorting *)
@@ -708,6 +788,20 @@ Proof.
   destruct (bsearch_spec c a' k HI') as (b & Hb & Hiff). exists b. split; [exact Hb|].
   destruct (sort_perm_sorted c (al_abs a)) as [HP HS]. rewrite HA in Hiff. rewrite (Hiff HS).
   split; intros Hin; eapply Permutation_in; try exact Hin; [apply Permutation_sym|]; exact HP.
+Qed.
+
+(* sort by [c], then search a bare id by [c]'s key-vs-member comparator *)
+Theorem sort_then_bsearch_int_key c a (k : key) a' r rel ws :
+  Inv a -> al_sort c a = AOk a' r rel ws ->
+  exists res, al_bsearch_km (cmp_km c) a' k = Some res /\
+              (forall x, res = Some x -> x = Some k) /\ (res = None <-> ~ In (Some k) (al_abs a)).
+Proof.
+  intros HI H. pose proof (sort_spec c a HI) as S. rewrite H in S. destruct S as (HI' & HA & _).
+  destruct (bsearch_int_key_spec c a' k HI') as (res & Hb & Hs & Hiff). exists res. split; [exact Hb|].
+  destruct (sort_perm_sorted c (al_abs a)) as [HP HS]. rewrite HA in Hiff. split.
+  - intros x Hx. apply (Hs x Hx).
+  - rewrite (Hiff HS). split; intros Hn Hin; apply Hn; eapply Permutation_in; try exact Hin;
+      [|apply Permutation_sym]; exact HP.
 Qed.
 
 (* ---------------- sorting has no hidden state ---------------- *)
@@ -951,6 +1045,22 @@ Proof.
   exists q, oks, rs, q', ws, b. auto 10.
 Qed.
 
+(* the same with a key that is not a member (a bare id): what is found has the key's id, NULL is
+   returned iff no element has it *)
+Theorem sort_after_any_history_int_key al n ops a0 c (k : key) :
+  al_new2 al n = NOk a0 -> Forall op_wf ops ->
+  exists q oks rs q' ws res,
+    al_run al a0 ops = Some (q, oks, rs) /\ al_sort c q = AOk q' 0 [] ws /\
+    al_bsearch_km (cmp_km c) q' k = Some res /\
+    (forall x, res = Some x -> x = Some k) /\ (res = None <-> ~ In (Some k) (al_abs q)).
+Proof.
+  intros Hn Hwf. pose proof (new2_spec al n) as N. rewrite Hn in N. destruct N as (HI0 & _).
+  destruct (run_refines al ops a0 HI0 Hwf) as (q & oks & rs & Hr & HIq & _).
+  destruct (sort_any_state c q HIq) as (q' & rel & ws & Hs & HI' & -> & HP & HS & _).
+  destruct (sort_then_bsearch_int_key c q k q' 0 [] ws HIq Hs) as (res & Hb & Hx & Hiff).
+  exists q, oks, rs, q', ws, res. auto 10.
+Qed.
+
 (* ---------------- refusals are never spurious ---------------- *)
 (* when the allocator cooperates, every operation with in-range arguments is served
    (the side condition on the capacity excludes arrays above 2^60 slots, where the doubling
@@ -1121,6 +1231,21 @@ Example resort_nontrivial :
        OSort Asc; OSort Asc; OSort Desc] = Some (q, oks, rs) /\
     al_abs q = [Some 9; Some 5; Some 3; None] /\
     al_bsearch Desc q (Some 9) = Some true /\ al_bsearch Desc q (Some 1) = Some false.
+Proof.
+  eexists _, _, _. split; [vm_compute; reflexivity|]. vm_compute. repeat split.
+Qed.
+
+(* a bare-id key searched among members (with a NULL gap and a duplicate), both comparators *)
+Example int_key_search_nontrivial :
+  exists q oks rs,
+    al_run (fun _ => true) (mkal [] 0 0)
+      [OAdd (Some 40); OAdd (Some 7); OAdd None; OAdd (Some 19); OAdd (Some 7); OSort Asc] = Some (q, oks, rs) /\
+    al_abs q = [None; Some 7; Some 7; Some 19; Some 40] /\
+    al_bsearch_km (cmp_km Asc) q 19 = Some (Some (Some 19)) /\
+    al_bsearch_km (cmp_km Asc) q 7 = Some (Some (Some 7)) /\
+    al_bsearch_km (cmp_km Asc) q 20 = Some None /\
+    (* the reverse comparator on this array is not the contract: it misses a present id *)
+    al_bsearch_km (cmp_km Desc) q 40 = Some None.
 Proof.
   eexists _, _, _. split; [vm_compute; reflexivity|]. vm_compute. repeat split.
 Qed.
